@@ -95,6 +95,9 @@ func genFunction(ld *Loader, specs *Specs, fn *ssa.Function, ct *Contract, opts 
 		}
 	}
 	tr.params = params
+	// no lock has been released by this function yet (see Trans.interfere)
+	st.set("L$relsd$sync.Mutex", tFalse)
+	st.set("L$relsd$sync.RWMutex", tFalse)
 	tr.pre = st.clone()
 	// axioms
 	for _, ax := range specs.Axioms {
@@ -291,7 +294,7 @@ func (tr *Trans) loopFrame(li *loopInfo, mod map[string]bool, st *State, cond Te
 		groups[grp] = append(groups[grp], f)
 	}
 	for _, grp := range order {
-		e.oblige(&Obl{Name: fmt.Sprintf("%s#loop%d.frame-%s:%s", tr.label, li.ordinal, what, grp), Kind: "frame", Props: g.topTr.propsOf(),
+		e.oblige(&Obl{Name: fmt.Sprintf("%s#loop%d.frame-%s:%s", tr.label, li.ordinal, what, grp), Kind: "frame", Props: g.topTr.framePropsOf(),
 			Cond: cond, Goal: and(groups[grp]...), Fn: tr.label, Pos: g.topTr.contract.Where})
 	}
 }
@@ -358,11 +361,11 @@ func (tr *Trans) frameObligations(ct *Contract) {
 		groupVals[grp] = append(groupVals[grp], vals...)
 	}
 	for _, grp := range order {
-		e.oblige(&Obl{Name: fmt.Sprintf("%s#frame:%s", tr.label, grp), Kind: "frame", Props: tr.propsOf(), Cond: tTrue,
+		e.oblige(&Obl{Name: fmt.Sprintf("%s#frame:%s", tr.label, grp), Kind: "frame", Props: unionProps(tr.propsOf(), ct.FrameProps), Cond: tTrue,
 			Goal: and(groups[grp]...), Fn: tr.label, Pos: ct.Where, Values: groupVals[grp]})
 	}
 	if g.havocAllSeen {
-		e.oblige(&Obl{Name: fmt.Sprintf("%s#frame:no-unknown-effects", tr.label), Kind: "frame", Props: tr.propsOf(), Cond: tTrue,
+		e.oblige(&Obl{Name: fmt.Sprintf("%s#frame:no-unknown-effects", tr.label), Kind: "frame", Props: unionProps(tr.propsOf(), ct.FrameProps), Cond: tTrue,
 			Goal: tFalse, Fn: tr.label, Pos: ct.Where})
 	}
 }
